@@ -23,7 +23,7 @@ class Prop(BaseProp):
             "checked for finiteness and range ([0,1]; 0<=entry<=multiplicity; [-1,1]), for invariance under swapping "
             "the arguments (array-wise, 1e-12) and for the identity values on (a, copy(a)). distinct = interleaving "
             "words incl. keyword regime")
-    budget = {"quick": 1000, "thorough": 30000}
+    budget = {"quick": 2000, "thorough": 240000}
     must_see = ["empty_train", "one_spike_train_on_t_start", "one_spike_train_on_t_end", "shared_interior_spike",
                 "RI_true", "mrts_above_all_isis", "max_tau_positive", "interval_given", "identity_checked", "swap_checked"]
     arm_files = [("pyspike/cython/python_backend.py", ["dist_at_t", "isi_distance_python"])]
